@@ -173,3 +173,58 @@ Theorem C16_turn_allocate_decodes : forall mac hash txid user realm nonce pass,
     d_method d = StunMethod_Allocate /\ d_class d = StunClass_Request /\ d_txid d = txid /\
     d_realm d = Some realm /\ d_nonce d = Some nonce /\ d_lifetime d = Some DEFAULT_TURN_LIFETIME.
 Proof. exact turn_allocate_decodes. Qed.
+
+(* the Allocate retry loop, for every sequence of server challenges (and any retry bound): request
+   n+1 is the authenticated Allocate built from challenge n -- REALM, NONCE and the key
+   hash(user ":" realm_n ":" pass) all come from that challenge, never from an earlier one *)
+Theorem C16_turn_key_follows_realm : forall mac hash user pass fuel info txids resps i req,
+  nth_error (alloc_loop mac hash user pass fuel info txids resps) (S i) = Some req ->
+  exists realm nonce tx,
+    nth_error resps i = Some (Some (realm, nonce)) /\ nth_error txids (S i) = Some tx /\
+    req = allocate_auth_bytes mac hash tx user realm nonce pass.
+Proof. exact alloc_loop_key. Qed.
+
+Theorem C16_turn_retry_integrity : forall mac hash user pass txids resps i req realm nonce,
+  mac20 mac -> Forall wf_txid txids -> wf_text user -> wf_text realm -> wf_text nonce ->
+  nth_error (allocate_requests mac hash user pass txids resps) (S i) = Some req ->
+  nth_error resps i = Some (Some (realm, nonce)) ->
+  exists tx, nth_error txids (S i) = Some tx /\
+    req = allocate_auth_bytes mac hash tx user realm nonce pass /\
+    let off := Z.to_nat (20 + zlen (cbs (attr_chunks (allocate_auth tx user realm nonce)))) in
+    firstn 24 (skipn off req) =
+      be16 ATTR_MESSAGE_INTEGRITY ++ be16 20
+      ++ mac (hash (user ++ [58] ++ realm ++ [58] ++ pass))
+             (write_length_field (firstn off req) (Z.of_nat off + 24 - 20)).
+Proof. exact turn_retry_integrity. Qed.
+
+(* ------------------------------------------------------------------ channels and ChannelData *)
+(* channel numbers handed out by create_channel_bind_packet stay in 0x4000..0x7FFF forever ... *)
+Theorem C16_channel_range : forall k next, chan_ok next -> Forall chan_ok (chan_seq k next).
+Proof. exact chan_seq_range. Qed.
+(* ... and the first 16384 of a client are pairwise distinct *)
+Theorem C16_channel_distinct : forall k, Z.of_nat k <= 16384 -> NoDup (chan_seq k CHANNEL_FIRST).
+Proof. exact chan_seq_distinct. Qed.
+
+(* RFC 5766 11.4: channel number, length = payload length, payload; an RFC reader gets channel and
+   payload back whatever padding follows; the first byte (0x40..0x7F) separates it from STUN *)
+Theorem C16_channeldata : forall ch d pad, chan_ok ch -> zlen d < 65536 ->
+  parse_channel_data (channel_data ch d ++ pad) = Some (ch, d) /\
+  zlen (channel_data ch d) = 4 + zlen d /\
+  64 <= byte_at (channel_data ch d) 0 < 128.
+Proof. exact channeldata_roundtrip. Qed.
+
+(* transport framing: UDP sends the message as the datagram; TCP sends a 16-bit length and then the
+   unchanged, unpadded message *)
+Theorem C16_turn_tcp_send_shape : forall m, zlen m < 65536 ->
+  skipn 2 (tcp_send m) = m /\ of_be16 (byte_at (tcp_send m) 0) (byte_at (tcp_send m) 1) = zlen m.
+Proof. exact tcp_send_shape. Qed.
+
+(* listed finding turn_tcp_length_prefix (open): that prefix is not RFC 5389 7.2.2 / RFC 5766 framing --
+   a standard TURN server does not find the request, and ChannelData over TCP is not padded to four *)
+Theorem C16_turn_tcp_prefix_refuted :
+  (let m := allocate_plain_bytes (fun _ _ => repeat 0 20) tcp_witness_txid in
+   rfc_tcp_first m = Some m /\ rfc_tcp_first (tcp_send m) <> Some m) /\
+  (let c := channel_data 16384 [1; 2; 3; 4; 5] in
+   parse_channel_data c = Some (16384, [1; 2; 3; 4; 5]) /\ rfc_tcp_first (tcp_send c) <> Some c /\
+   (zlen (tcp_send c) - 2) mod 4 <> 0).
+Proof. exact turn_tcp_prefix_refuted. Qed.
